@@ -34,6 +34,10 @@ REF_IDENTITY = (
     "std::array::<impl [T; N]>::as_slice",
     "core::array::<impl [T; N]>::as_mut_slice",
     "core::array::<impl [T; N]>::as_slice",
+    "std::array::<impl std::convert::AsMut<[T]> for [T; N]>::as_mut",
+    "core::array::<impl std::convert::AsMut<[T]> for [T; N]>::as_mut",
+    "std::array::<impl std::convert::AsRef<[T]> for [T; N]>::as_ref",
+    "core::array::<impl std::convert::AsRef<[T]> for [T; N]>::as_ref",
     "<std::vec::Vec<T, A> as std::ops::Deref>::deref",
     "<std::vec::Vec<T, A> as std::ops::DerefMut>::deref_mut",
     "<digest::generic_array::GenericArray<T, N> as std::ops::Deref>::deref",
